@@ -237,8 +237,9 @@ func rulesC20(c *Ctx) {
 					yj := strings.Contains(y, "param:j") && strings.HasSuffix(y, "."+ht.key)
 					xj := strings.Contains(x, "param:j") && strings.HasSuffix(x, "."+ht.key)
 					yi := strings.Contains(y, "param:i") && strings.HasSuffix(y, "."+ht.key)
-					less := (xi && yj && bo.Op == token.LSS) || (xj && yi && bo.Op == token.GTR)
-					greater := (xi && yj && bo.Op == token.GTR) || (xj && yi && bo.Op == token.LSS)
+					// strict or not: ties may be ordered either way without changing which priority is at the root
+					less := (xi && yj && (bo.Op == token.LSS || bo.Op == token.LEQ)) || (xj && yi && (bo.Op == token.GTR || bo.Op == token.GEQ))
+					greater := (xi && yj && (bo.Op == token.GTR || bo.Op == token.GEQ)) || (xj && yi && (bo.Op == token.LSS || bo.Op == token.LEQ))
 					ok = (ht.desc && greater) || (!ht.desc && less)
 				}
 			}
@@ -246,7 +247,7 @@ func rulesC20(c *Ctx) {
 			if ht.desc {
 				dir = "descending"
 			}
-			c.Check(ok, "C20.heap", T+".Less:"+dir+" "+ht.key, c.P.Pos(fn.Pos()), "Less orders by "+dir+" "+ht.key+" (strict)", "the comparator of "+ht.typ+" is not strict "+dir+" "+ht.key+": the heap root is no longer the element the scheduler relies on")
+			c.Check(ok, "C20.heap", T+".Less:"+dir+" "+ht.key, c.P.Pos(fn.Pos()), "Less orders by "+dir+" "+ht.key, "the comparator of "+ht.typ+" is not "+dir+" "+ht.key+": the heap root is no longer the element the scheduler relies on")
 		}
 		// Swap/Push/Pop keep the element's own index field
 		for _, m := range []struct{ name, recv string }{{"Swap", "(" + ht.typ + ")"}, {"Push", "(*" + ht.typ + ")"}, {"Pop", "(*" + ht.typ + ")"}} {
